@@ -111,6 +111,10 @@ class Extra:
     EXPLAIN = ('  Chain rewrites: for every chain of child/edge transforms (length bound in bounds) canonical/uppermost/promote are run by the real code and z3 decides, on a symbolic point, '
                'that the rewritten chain is the same affine map (linear real arithmetic; the matrices are dyadic).  index_with_tail round trips on small structured meshes are enumerated (auxiliary).')
     def replay(self, d):
+        if d.get('kind') == 'locate':
+            from checks import c11_locate
+            c = (d['case'][0], tuple(d['case'][1]) if d['case'][0] != 'curvature' else (tuple(d['case'][1][0]), d['case'][1][1]))
+            ok, detail = c11_locate.replay(c, None); print('REPRODUCED' if ok else 'not reproduced', detail); return 1 if ok else 0
         R = refs()
         chain = [c for c in chains(R[d['ref']], d['maxlen']) if ','.join(repr(t) for t in c) == d['chain']][0]
         ok, detail = replay_chain(chain, d['rewrite'], d.get('point'))
@@ -138,6 +142,24 @@ class Extra:
         R = refs()['square']
         c1, c2 = (R.child_transforms[0],), (R.child_transforms[1],)
         x = SArray.symbolic('x', (2,)); run.twin(S.equiv(sym_apply(c1, x), sym_apply(c2, x)).sat > 0)
+        # locate() on structured topologies: the closed-form path (real _asaffine/_locate on a geometry known only through a symbolic uniform sample)
+        if not args.only or args.only == 'locate':
+            from checks import c11_locate
+            closed = 0
+            for c in c11_locate.cases(args.tier):
+                o = c11_locate.run_case(c)
+                run.case(o['label'], o['unsat'] > 0); run.paths += o['paths']; closed += o['closed']
+                run.queries['exact_unsat'] += o['unsat']; run.queries['unknown'] += o['unknown']; run.queries['sat'] += len(o['sat'])
+                obligations += o['unsat'] + o['unknown'] + len(o['sat']); discharged += o['unsat']
+                if o['errors'] or o['unknown'] or not o.get('exhaustive', True): run.unconfirmed(o['label'], f'{o["errors"][:2]} unknown={o["unknown"]}')
+                run.sample(dict(obligation=o['label'], paths=o['paths'], proved=o['unsat']), limit=30)
+                for cex in o['sat']:
+                    ok, detail = c11_locate.replay(c, cex)
+                    cj = [c[0], list(c[1]) if c[0] != 'curvature' else [list(c[1][0]), c[1][1]]]
+                    if ok: run.violation('locate:' + o['label'], f'{o["label"]}: {cex["label"]}: {detail}'[:600], dict(kind='locate', case=cj)); break
+                    else: run.unconfirmed(o['label'], f'{cex["label"]}: not reproduced through Topology.locate ({detail})')
+            if closed == 0: run.harness_error('locate obligations: the closed-form path was never taken (vacuous)')
+            run.stubs += ['topo.sample -> stub whose eval() maps the real uniform sample points (exact rationals) through a symbolic axis-aligned quadratic geometry', 'TransformChainsTopology._locate (generic Newton path) -> marker exception: its numerics are declined', 'nutils.topology.numpy -> symx.npproxy']
         n, bad = structured_lookup_cases(args.tier)
         run.counters['structured_lookup_enumerated'] = n
         for b in bad[:5]: run.violation('lookup:' + b[:80], 'index_with_tail(transforms[i] + tail) != (i, tail): ' + b, dict(kind='lookup', note=b))
